@@ -59,6 +59,10 @@ func (k Keeper) SendNftTransfer(
 		if err != nil {
 			return err
 		}
+	} else if strings.HasPrefix(class, CLASSPATHPREFIX) && strings.Contains(class, DELIMITER) {
+		// a native class whose id reads like a class path would be handled as the voucher of another
+		// chain's class (burned here, escrow released there)
+		return errorsmod.Wrapf(types.ErrInvalidDenom, "native class %s has the form of a cross-chain class path", class)
 	}
 
 	labels := []metrics.Label{
